@@ -154,6 +154,19 @@ impl Compound {
             }
         }
 
+        // A scale with a zero point (°C, °F) can only be converted when it
+        // stands alone with power one, otherwise the degree is not a
+        // temperature and the zero point must not be added.
+        for names in [&self.names, &other.names] {
+            for (name, state) in names {
+                if let Some(Conversion::Methods(..) | Conversion::Offset(..)) = name.conversion() {
+                    if names.len() != 1 || state.power != 1 {
+                        return Err(CompoundError);
+                    }
+                }
+            }
+        }
+
         for (name, state) in &other.names {
             *value *= Rational::new(10u32, 1u32).pow(state.prefix * state.power);
 
